@@ -48,7 +48,10 @@ CutCands(s, fmt) ==
   ELSE IF CutMode = "classes"
        THEN ((0..16) \cup UNION {{Bound(s, fmt, k) + d : d \in -64..64} : k \in 1..4}
              \cup {(T \div 37) * j : j \in 1..36} \cup {Bound(s, fmt, 1) + ((SecLen[s][fmt][2] \div 23) * j) : j \in 1..22}
-             \cup {Bound(s, fmt, 3) + ((SecLen[s][fmt][4] \div 23) * j) : j \in 1..22}) \cap (0..(T - 1))
+             \cup {Bound(s, fmt, 3) + ((SecLen[s][fmt][4] \div 23) * j) : j \in 1..22}
+             \* I/O block boundaries (readers and writers move the file in 4 KiB pages, 64 KiB and 1 / 4 MiB buffers)
+             \cup UNION {{B * j + d : j \in 1..(T \div B), d \in {-1, 0, 1}} : B \in {1048576, 4194304}}
+             \cup {4096 * j : j \in 1..8} \cup {65536 * j : j \in 1..8}) \cap (0..(T - 1))
        ELSE {}
 Crash(f, cut) == /\ Len(hist) < MaxOps /\ files[f].exists /\ files[f].len = Total(files[f].sys, files[f].fmt)
                  /\ cut \in CutCands(files[f].sys, files[f].fmt)
